@@ -45,7 +45,7 @@ def model_book(m):
     return conn, disc, mine
 
 
-def scenario(ck, trial, tier, cs0):
+def scenario(ck, trial, tier, cs0, max_attempts=None):
     from skepticoin.networking import messages as M
     from skepticoin.networking import remote_peer as RP
     from skepticoin.networking import params as NP
@@ -88,6 +88,10 @@ def scenario(ck, trial, tier, cs0):
                 r, ov = script[step]
             rp = {'trial': trial, 'step': step}
             ev = None
+            if max_attempts is not None and step >= len(script) and rng.random() < 0.5:
+                r = 0.1 if rng.random() < 0.7 else 0.8       # mostly timer steps and announcements: reach the give-up limit
+                if r == 0.8:
+                    ov = {'ann': [(rng.choice([3, 4, 5]), 2412)]}
             if r < 0.35:
                 dt = rng.choice([0, 1, 5, 9, 10, 11, 19, 20, 21, 40, 100, 700, 2000])
                 dt = ov.get('dt', dt)
@@ -251,6 +255,14 @@ def scenario(ck, trial, tier, cs0):
             if (HOSTS[key[0]], key[1]) in nm.my_addresses:
                 when = [x[0] for x in lst]
                 # no attempt after the address was recognised as our own
+        # give-up: an address whose every connection ended without a greeting (hosts 3, 4, 5 never greet) is dialled at most
+        # limit + 1 times by the node itself, announcements of it notwithstanding
+        limit = max_attempts if max_attempts is not None else NP.MAX_CONNECTION_ATTEMPTS
+        for key, lst in by.items():
+            own = [x for x in lst if not x[2]]
+            if key[0] in (3, 4, 5) and len(own) > limit + 1:
+                ck.violation('attempt-after-give-up', 'address %s, whose every connection ended without a greeting, was dialled %d '
+                             'times by the node (give-up limit %d)' % (key, len(own), limit), {'trial': trial, 'attempts': lst[:12]})
         for (hst, port) in nm.my_addresses:
             k_ = (hst, port, 'OUTGOING')
             if k_ in nm.connected_peers:
@@ -261,6 +273,58 @@ def scenario(ck, trial, tier, cs0):
             pass
         lp.start_outgoing_connection = orig_start
         return events, observed, attempts
+
+
+def atomic_probe(ck, tier):
+    """peers.json is replaced atomically: traced like the wallet file (C15) -- the on-disk content after every
+    open/write/flush/close/rename step of write_peers is the complete previous or the complete new list"""
+    import sys
+    import check_C15 as W15
+    from skepticoin.networking import disk_interface as DI
+    from skepticoin.networking import remote_peer as RP
+    if not W15._AUDIT['installed']:
+        sys.addaudithook(W15._audit_hook)
+        W15._AUDIT['installed'] = True
+    name = DI.PEERS_JSON_FILE
+    if os.path.exists(name):
+        os.unlink(name)
+    di = DI.DiskInterface()
+    for k in range(6 if tier == 'quick' else 40):
+        peer = RP.DisconnectedRemotePeer('10.3.%d.%d' % (k // 200, k % 200 + 1), 2412, 'OUTGOING', None, 0)
+        old_disk = open(name, 'rb').read() if os.path.exists(name) else None
+        tr = W15.Tracer(name)
+        saved = (DI.__dict__.get('open'), DI.os)
+        DI.open = tr.open
+        DI.os = W15.OsProxy(tr)
+        W15._AUDIT['events'] = []
+        W15._AUDIT['on'] = True
+        try:
+            di.write_peers(peer)
+        finally:
+            W15._AUDIT['on'] = False
+            if saved[0] is None:
+                del DI.open
+            else:
+                DI.open = saved[0]
+            DI.os = saved[1]
+        new_disk = open(name, 'rb').read()
+        rp = {'kind': 'peers-file', 'write': k, 'ops': [repr(s_[0]) for s_ in tr.states]}
+        for i, (op, content) in enumerate(tr.states):
+            ck.case(('peers-file', k, i), kind='peers-file-crash-point/%s' % op[0])
+            if content != old_disk and content != new_disk:
+                ck.violation('peers-file-torn', 'after step %d (%s) of write_peers the peers file is neither the complete previous '
+                             'nor the complete new list (%s bytes)' % (i, op[0], None if content is None else len(content)), rp)
+                break
+        inplace = W15.in_place_writes(W15._AUDIT['events'], name) if old_disk is not None else []
+        if inplace:
+            ck.violation('peers-file-written-in-place', 'write_peers opens the peers file itself for writing (%s)' % ', '.join(inplace[:3]), rp)
+        try:
+            json.loads(new_disk)
+        except Exception as e:
+            ck.violation('peers-file-corrupt', 'peers file unreadable after write_peers: %s' % e, rp)
+    for f in (name, name + '.new'):
+        if os.path.exists(f):
+            os.unlink(f)
 
 
 def run(tier, seed):
@@ -281,8 +345,22 @@ def run(tier, seed):
     cs0 = CoinState.zero()
     reqs, wants = [], []
     for trial in range(10 if tier == 'quick' else 60):
+        # every third scenario runs with the give-up limit lowered to 3 consecutive greeting-less failures (the shipped 2880
+        # would need months of simulated time), patched wherever the networking modules look the constant up
+        ma = 3 if trial % 3 == 2 else None
+        patched = []
+        if ma is not None:
+            import sys
+            for mn, mod in list(sys.modules.items()):
+                if mn.startswith('skepticoin.networking') and hasattr(mod, 'MAX_CONNECTION_ATTEMPTS'):
+                    patched.append((mod, mod.MAX_CONNECTION_ATTEMPTS))
+                    mod.MAX_CONNECTION_ATTEMPTS = ma
         try:
-            events, observed, attempts = scenario(ck, trial, tier, cs0)
+            try:
+                events, observed, attempts = scenario(ck, trial, tier, cs0, max_attempts=ma)
+            finally:
+                for mod, val in patched:
+                    mod.MAX_CONNECTION_ATTEMPTS = val
         except Exception:
             import traceback
             tb = traceback.format_exc()
@@ -292,8 +370,13 @@ def run(tier, seed):
             ck.disagree('scenario %d crashed: %s' % (trial, tb[-600:]), {'trial': trial})
             continue
         reqs.append(('book_run', [], [NP.TIME_TO_SECOND_CONNECTION_ATTEMPT, NP.MAX_TIME_BETWEEN_CONNECTION_ATTEMPTS,
-                                      NP.MAX_CONNECTION_ATTEMPTS, events]))
+                                      ma if ma is not None else NP.MAX_CONNECTION_ATTEMPTS, events]))
         wants.append((observed, {'trial': trial}))
+    try:
+        atomic_probe(ck, tier)
+    except Exception:
+        import traceback
+        ck.disagree('peers-file probe crashed: %s' % traceback.format_exc()[-500:], {})
     # ---- constants, retry limit, file limit
     if (NP.TIME_TO_SECOND_CONNECTION_ATTEMPT, NP.MAX_TIME_BETWEEN_CONNECTION_ATTEMPTS, NP.MAX_CONNECTION_ATTEMPTS) != (10, 1800, 2880):
         ck.violation('backoff-constants', 'back-off constants are %r, documented 10 s / 30 min / 2880' % (
